@@ -11,6 +11,9 @@ CONSTANTS
   DevSortBreakStops = FALSE
   DevSortEmptyNoComplete = FALSE
   DevSpaceCountsKeyless = FALSE
+  Files = 2
+  DevBreakEndsFileOnly = FALSE
+VIEW View
 CHECK_DEADLOCK FALSE
 INVARIANT Composition
 INVARIANT LimitIsSlice
